@@ -404,6 +404,13 @@ func drawPW(t *rapid.T) *PW {
 		centre = gen.Sign(t, "cs") * gen.LogUniform(t, 1, 1e6, "centreBig")
 	}
 	width := gen.LogUniform(t, 1e-3, 1e5, "width")
+	wideStraddle := rapid.IntRange(0, 5).Draw(t, "wideStraddle") == 0
+	if wideStraddle {
+		// a wide support with both ends far from 0 and something happening close to 0: where
+		// a tolerance taken relative to the ends of the support is far too coarse
+		centre = 0
+		width = gen.LogUniform(t, 1e4, 2e6, "wideWidth")
+	}
 	gaps := make([]float64, n-1)
 	tot := 0.0
 	for i := range gaps {
@@ -411,7 +418,11 @@ func drawPW(t *rapid.T) *PW {
 		tot += gaps[i]
 	}
 	p := &PW{Xs: make([]float64, n), Left: make([]float64, n), Right: make([]float64, n)}
-	x := centre - width*rapid.Float64Range(0, 1).Draw(t, "offset")
+	off := rapid.Float64Range(0, 1).Draw(t, "offset")
+	if wideStraddle {
+		off = 0.3 + 0.4*off
+	}
+	x := centre - width*off
 	for i := 0; i < n; i++ {
 		if i > 0 {
 			nx := x + width*gaps[i-1]/tot
@@ -421,6 +432,16 @@ func drawPW(t *rapid.T) *PW {
 			x = nx
 		}
 		p.Xs[i] = x
+	}
+	if wideStraddle { // move the first knot right of 0 close to 0
+		for k := 1; k+1 < len(p.Xs); k++ {
+			if p.Xs[k] > 0 {
+				if s := gen.LogUniform(t, 1e-6, 50, "nearZeroKnot"); s < p.Xs[k] && s > p.Xs[k-1] {
+					p.Xs[k] = s
+				}
+				break
+			}
+		}
 	}
 	// masses: jump at each knot, ramp on each segment; zero allowed
 	mass := func(label string) float64 {
